@@ -295,6 +295,31 @@ def explore_c08(ctx, res, replay_ops=None):
             res.violation("crash", "the rating server panicked (stopped answering) on a request",
                           _history(r.ops, i) + ["# impl: " + im])
         elif it and it[0] in ("ans", "noanswer"):
+            # "prices exactly" for stored integer tariffs beyond 32 bits: the server (and the CHF) work with the tariff modulo 2^32
+            try:
+                cs = bytes.fromhex(st if st not in ("?", "-") else "").decode()
+            except (ValueError, UnicodeDecodeError):
+                cs = ""
+            if (it[0] == "ans" and re.fullmatch(r"\d+", cs) and 2 ** 32 <= int(cs) < 2 ** 63 and len(it) >= 6
+                    and all(re.fullmatch(r"\d+", x) for x in (t[6], t[7], t[8]))):
+                c, sub_t, consumed, quota = int(cs), int(t[6]), int(t[7]), int(t[8])
+                exact = None
+                if sub_t == 1:
+                    exact = (quota // c, (quota // c) * c)
+                elif sub_t == 2 and consumed * c < 2 ** 32:
+                    exact = (None, consumed * c)
+                if exact is not None:
+                    res.dist["tariff-beyond-32-bits"] += 1
+                    got = (int(it[4]), int(it[5]))
+                    if (exact[0] is not None and got[0] != exact[0]) or got[1] != exact[1]:
+                        what = ("C08: stored unit cost %s (an integer beyond 32 bits), %s of %s: the rating server allows %d units at the price %d; exactly "
+                                "priced it is %s units at the price %d" % (cs, "reservation" if sub_t == 1 else "debit", quota if sub_t == 1 else consumed,
+                                                                        got[0], got[1], exact[0] if exact[0] is not None else "-", exact[1]))
+                        kf = ctx.kf_classes()
+                        if "unit-cost-beyond-32-bits" in kf:
+                            res.kf["unit-cost-beyond-32-bits"] = kf["unit-cost-beyond-32-bits"]
+                        else:
+                            res.violation("oracle", what, _history(r.ops, i) + ["# impl: " + im])
             rep = im if it[0] == "noanswer" else " ".join(it[:6])
             judge_q.append("rfjudge %s %s %s" % (st, " ".join(t[2:]), rep))
             judge_idx.append(i)
